@@ -172,6 +172,14 @@ var f64Class = []uint64{0, 1 << 63, 1, 0x000fffffffffffff, 0x0010000000000000, 0
 	0x7ff8000000000001, 0xfff8000000000000, 0x7ff0000000000001, math.Float64bits(1), math.Float64bits(-1), math.Float64bits(0.1), math.Float64bits(1e21), math.Float64bits(1e-7),
 	math.Float64bits(9007199254740993), math.Float64bits(1e300), math.Float64bits(5e-324), math.Float64bits(123456789.125)}
 
+// doubles at integer-type boundaries (where an integer fast path or cast would change the value)
+var f64IntBounds = []uint64{math.Float64bits(9223372036854775808), math.Float64bits(-9223372036854775808), math.Float64bits(9223372036854774784), math.Float64bits(-9223372036854777856),
+	math.Float64bits(18446744073709551616), math.Float64bits(18446744073709549568), math.Float64bits(1e19), math.Float64bits(-1e19), math.Float64bits(9007199254740992), math.Float64bits(-9007199254740992),
+	math.Float64bits(9007199254740991), math.Float64bits(4294967296), math.Float64bits(4294967295), math.Float64bits(2147483648), math.Float64bits(-2147483648), math.Float64bits(-2147483649),
+	math.Float64bits(2147483647), math.Float64bits(1e16), math.Float64bits(1e17), math.Float64bits(1e18), math.Float64bits(-1e18), math.Float64bits(65536), math.Float64bits(-32769), math.Float64bits(255), math.Float64bits(-129)}
+
+func init() { f64Class = append(f64Class, f64IntBounds...) }
+
 // GenF64Bits returns float64 bit patterns by class. finiteOnly excludes NaN/Inf.
 func GenF64Bits(t *rapid.T, finiteOnly bool) uint64 {
 	for {
@@ -197,7 +205,8 @@ func GenF32Bits(t *rapid.T, finiteOnly bool) uint32 {
 		var b uint32
 		switch rapid.IntRange(0, 2).Draw(t, "f32class") {
 		case 0:
-			c := []uint32{0, 1 << 31, 1, 0x007fffff, 0x00800000, 0x7f7fffff, 0x7f800000, 0xff800000, 0x7fc00001, 0xffc00000, math.Float32bits(1), math.Float32bits(-1.5), math.Float32bits(0.1), math.Float32bits(16777217)}
+			c := []uint32{0, 1 << 31, 1, 0x007fffff, 0x00800000, 0x7f7fffff, 0x7f800000, 0xff800000, 0x7fc00001, 0xffc00000, math.Float32bits(1), math.Float32bits(-1.5), math.Float32bits(0.1), math.Float32bits(16777217),
+				math.Float32bits(2147483648), math.Float32bits(-2147483648), math.Float32bits(9223372036854775808), math.Float32bits(-9223372036854775808), math.Float32bits(18446744073709551616), math.Float32bits(4294967296), math.Float32bits(1e10), math.Float32bits(1e19)}
 			b = c[rapid.IntRange(0, len(c)-1).Draw(t, "f32c")]
 		case 1:
 			b = math.Float32bits(float32(rapid.IntRange(-1000, 1000).Draw(t, "f32int")) / 8)
